@@ -83,6 +83,7 @@ class FaultWrap:
         'df'  getDrivingForce -> what GeneralThermodynamics returns: np.squeeze((None,)) twice; 'dfn' -> (None, None)
         'gr'  getGrowthAndInterfacialComposition  -> None
         'ic'  getInterfacialComposition           -> arrays of the -1 sentinel (shape of gExtra)
+        'icp' getInterfacialComposition           -> the real result with -1 at every third entry and at the last one
     every call is logged as (kind, k, dropped)."""
 
     def __init__(self, backend, faults=()):
@@ -122,11 +123,21 @@ class FaultWrap:
         return r
 
     def getInterfacialComposition(self, T, gExtra=0, precPhase=None):
+        k = self._count['ic']
         if self._tick('ic'):
             g = np.atleast_1d(gExtra)
             r = (np.squeeze(-1 * np.ones(g.shape)), np.squeeze(-1 * np.ones(g.shape)))
         else:
             r = self._b.getInterfacialComposition(T, gExtra, precPhase=precPhase)
+            if ('icp', k) in self._faults:
+                # no result for SOME of the Gibbs-Thomson energies of the call (every third entry and the last one)
+                self.log[-1] = ('ic', k, True)
+                xa, xb = np.atleast_1d(np.array(r[0], dtype=float)).copy(), np.atleast_1d(np.array(r[1], dtype=float)).copy()
+                idx = np.arange(len(xa))
+                miss = (idx % 3 == k % 3) | (idx == len(xa) - 1)
+                xa[miss] = -1
+                xb[miss] = -1
+                r = (np.squeeze(xa), np.squeeze(xb))
         if len(self.ic_results) < 4000:
             self.ic_results.append((np.array(r[0], dtype=float).copy(), np.array(r[1], dtype=float).copy()))
         return r
@@ -153,6 +164,26 @@ def temperature_arg(spec):
     raise ValueError(k)
 
 
+_REAL = {}
+
+
+def real_backend(kind):
+    """the pycalphad-backed thermodynamics of kawin's own test data (one object per process)"""
+    if kind not in _REAL:
+        from kawin.tests.datasets import ALZR_TDB, NICRAL_TDB
+        from kawin.thermo import BinaryThermodynamics, MulticomponentThermodynamics
+        if kind == 'alzr':
+            th = BinaryThermodynamics(ALZR_TDB, ['AL', 'ZR'], ['FCC_A1', 'AL3ZR'], drivingForceMethod='tangent')
+            th.setDiffusivity(lambda T: 0.0768 * np.exp(-242000 / (8.314 * T)), 'FCC_A1')
+        else:
+            th = MulticomponentThermodynamics(NICRAL_TDB, ['NI', 'AL', 'CR'], ['FCC_A1', 'FCC_L12'], drivingForceMethod='tangent')
+        th.setDFSamplingDensity(2000)
+        th.setEQSamplingDensity(500)
+        _REAL[kind] = th
+    _REAL[kind].clearCache()
+    return _REAL[kind]
+
+
 def build_model(cfg):
     from kawin.precipitation import PrecipitateModel, VolumeParameter
     sysk = cfg.get('sys', 'binary')
@@ -163,14 +194,20 @@ def build_model(cfg):
     elif sysk == 'ternary':
         m = PrecipitateModel(phases=phases, elements=['B', 'C'])
         backend = StubTernary(phases)
+    elif sysk == 'alzr':
+        m = PrecipitateModel(phases=phases, elements=['ZR'])
+        backend = real_backend('alzr')
+    elif sysk == 'nicral':
+        m = PrecipitateModel(phases=phases, elements=['Al', 'Cr'])
+        backend = real_backend('nicral')
     else:
         raise ValueError(sysk)
     cmin, cmax, nb, minb, maxb = cfg.get('bins', (1e-10, 1e-8, 75, 50, 100))
     m.setPBMParameters(cMin=cmin, cMax=cmax, bins=int(nb), minBins=int(minb), maxBins=int(maxb), adaptive=bool(cfg.get('adaptive', True)))
-    m.setInitialComposition(cfg['x0'] if sysk == 'binary' else list(cfg['x0']))
+    m.setInitialComposition(cfg['x0'] if sysk in ('binary', 'alzr') else list(cfg['x0']))
     with contextlib.redirect_stdout(io.StringIO()):
         m.setTemperature(*temperature_arg(cfg['T']))
-    a = 0.4e-9
+    a = float(cfg.get('lattice', 0.4e-9))
     m.setVolumeAlpha(a ** 3, VolumeParameter.ATOMIC_VOLUME, 4)
     vr = cfg.get('vratio', 1.0)
     for i, p in enumerate(phases):
@@ -182,7 +219,7 @@ def build_model(cfg):
         m.setNucleationSite(cfg.get('sites', ['dislocations'] * len(phases))[i], phase=p)
         if 'infinite' in cfg:
             m.setInfinitePrecipitateDiffusivity(bool(cfg['infinite']), phase=p)
-    m.setNucleationDensity(grainSize=cfg.get('grainSize', 1), dislocationDensity=cfg.get('dislocationDensity', 1e15))
+    m.setNucleationDensity(grainSize=cfg.get('grainSize', 1), dislocationDensity=cfg.get('dislocationDensity', 1e15), bulkN0=cfg.get('bulkN0'))
     if cfg.get('constraints'):
         m.setConstraints(**cfg['constraints'])
     if 'betaFunc' in cfg:
@@ -219,7 +256,7 @@ def instrument_model(m, fw, cfg):
     """instance-level recorders around the methods whose decision logic the Coq model mirrors; nothing in the kawin
     source is touched.  Returns the dict the records are appended to."""
     import kawin.precipitation.KWNBase as KB
-    rec = {'lookup': Keep(8, 5, 30), 'gbin': Keep(6, 41, 24), 'gmulti': Keep(30, 7, 80), 'nuc': Keep(30, 7, 80), 'getdt': Keep(10, 29, 40)}
+    rec = {'fill': Keep(10, 3, 30), 'lookup': Keep(8, 5, 30), 'gbin': Keep(6, 41, 24), 'gmulti': Keep(30, 7, 80), 'nuc': Keep(30, 7, 80), 'getdt': Keep(10, 29, 40)}
     P = len(m.phases)
     binary = m.numberOfElements == 1
 
@@ -239,6 +276,19 @@ def instrument_model(m, fw, cfg):
                                            'ta': _f(m.PSDXalpha[p][:, 0]), 'tb': _f(m.PSDXbeta[p][:, 0])})
             return out
         m._createLookupBinary = lookup
+
+        if hasattr(m, '_fillUnknownInterfacialComposition'):
+            o_fill = m._fillUnknownInterfacialComposition
+
+            def fill(p, start):
+                want = rec['fill'].want()
+                if want:
+                    pre = (_f(m.PSDXalpha[p][:, 0]), _f(m.PSDXbeta[p][:, 0]))
+                out = o_fill(p, start)
+                if want:
+                    rec['fill'].add({'p': p, 'start': int(start), 'xa': pre[0], 'xb': pre[1], 'ia': _f(m.PSDXalpha[p][:, 0]), 'ib': _f(m.PSDXbeta[p][:, 0])})
+                return out
+            m._fillUnknownInterfacialComposition = fill
 
         o_gb = m._singleGrowthBinary
 
